@@ -17,7 +17,8 @@ from fractions import Fraction
 from harness.core import Case, ImplResult, frac
 
 PID = 'C09'
-LEAN_MODULES = ['ThermoVerif.Props.C09', 'ThermoVerif.Props.C09Store', 'ThermoVerif.Props.C09Array']
+LEAN_MODULES = ['ThermoVerif.Props.C09', 'ThermoVerif.Props.C09Store', 'ThermoVerif.Props.C09Array',
+                'ThermoVerif.Props.C09Array2', 'ThermoVerif.Props.C09Array3']
 RULE = ('operation histories on shared SparseVector / SparseLogicalVector / SparseArray objects; values are dyadic '
         'rationals (exact in binary64), divisors ±2^j; every run enumerates the operand-kind × operator × '
         'shape-relation grid completely (vector, logical vector and array targets, binary / in-place / reflected, '
